@@ -658,6 +658,9 @@ func (h *harness) do(line string) {
 			}
 		}
 		run.Tag("decided:" + out)
+		if !isDecided {
+			run.Tag("decided:below-quorum:" + out)
+		}
 		run.Tag(fmt.Sprintf("decided:rel=%d", rel))
 		run.Seen(fmt.Sprintf("decided/%s/full=%v/rel=%d/mem=%v/hist=%v/k=%d/r=%d", out, n.full, rel, inMem, inHist, len(sg), rd))
 		h.emit(op, out)
